@@ -16,7 +16,9 @@ DOMAINS = [  # (labels, rendered text)
 ]
 HOSTS = [(["x", "a"], "x.a"), (["b", "x", "a"], "b.x.a"), (["bx", "a"], "bx.a"), (["xx", "a"], "xx.a"), (["a"], "a"),
          (["x", "a"], "X.A"), (["c", "b", "x", "a"], "c.B.x.a"), (["a", "x"], "a.x")]
-COOKIES = [[("k", "1")], [("k", "2")], [("m", "1")], [("k", "1"), ("m", "2")], [("m", "2"), ("a", "1")], [("z", "2")]]
+COOKIES = [[("k", "1")], [("k", "2")], [("m", "1")], [("k", "1"), ("m", "2")], [("m", "2"), ("a", "1")], [("z", "2")],
+           # one name set three times in one response (X, Y, X): the last line wins
+           [("k", "1"), ("k", "2"), ("k", "1")]]
 USERS = ["", "u=9"]
 
 
@@ -24,8 +26,8 @@ def steps_alphabet():
     return list(itertools.product(range(len(HOSTS)), range(len(DOMAINS)), range(len(COOKIES)), range(len(USERS))))
 
 
-def run_history(tid, hist):
-    """hist: steps (host, domain, cookies, user[, host option index or None[, redirect]]).  A step with the redirect flag
+def run_history(tid, hist, threads=False):
+    """threads: every connect() call is made from a thread of its own (the jar is shared by all threads).  hist: steps (host, domain, cookies, user[, host option index or None[, redirect]]).  A step with the redirect flag
     answers 302 (with its Set-Cookie lines) and points to the host of the next step: both requests belong to one
     connect() call.  The host option (a custom Host header) must not change which cookies are looked up."""
     import websocket
@@ -57,16 +59,24 @@ def run_history(tid, hist):
         user = USERS[chain[0][3]]
         oi = chain[0][4]
         with w:
-            ws = websocket.WebSocket()
-            ws.settimeout(3)
-            kw = {"cookie": user} if user else {}
-            if oi is not None:
-                kw["host"] = HOSTS[oi][1]
-            try:
-                ws.connect("ws://%s/" % HOSTS[chain[0][0]][1], **kw)
-            except Exception as e:      # noqa   (a redirect as last step of a history: too many redirects etc.)
-                if len(peers) < len(chain):
-                    raise
+            def call():
+                ws = websocket.WebSocket()
+                ws.settimeout(3)
+                kw = {"cookie": user} if user else {}
+                if oi is not None:
+                    kw["host"] = HOSTS[oi][1]
+                try:
+                    ws.connect("ws://%s/" % HOSTS[chain[0][0]][1], **kw)
+                except Exception as e:      # noqa   (a redirect as last step of a history: too many redirects etc.)
+                    if len(peers) < len(chain):
+                        raise
+            if threads:
+                import threading
+                th = threading.Thread(target=call)
+                th.start()
+                th.join(20)
+            else:
+                call()
         for j, (hi, di, ci, ui, _oi, redir) in enumerate(chain):
             hlabels, htext = HOSTS[hi]
             dlabels, dtext = DOMAINS[di]
@@ -141,6 +151,11 @@ def main(ctx):
         ctx.machinery_error = "vacuity guard: CookieMC never sends a cookie"
     hs = histories(rng, ctx.tier)
     traces = [run_history("h%d" % i, h) for i, h in enumerate(hs)]
+    # the same jar from several threads: a sample of the histories with every connect() in a thread of its own
+    ths = [h for h in hs if len(h) >= 2][::7 if ctx.tier == "quick" else 2]
+    for i, h in enumerate(ths):
+        hs.append(h)
+        traces.append(run_history("t%d" % i, h, threads=True))
     d = tlc.scratch("c20_in")
     path = os.path.join(d, "cookie.ndjson")
     with open(path, "w") as f:
